@@ -54,6 +54,10 @@ CLAIMED = {
    technique="bounded exhaustive enumeration of tag texts x configurations x tag kinds on the real container; reference evaluator for acyclic cases; termination decided by a Configure.Get-call budget",
    text="Every tag of <=2 segments (custom tag: <=3) over eleven literal/placeholder forms (defaults, empty map/list, nested key, nested default) x 56 configurations (absent / plain / referring to the other key / self-referential / self-growing / numeric) x three tag kinds (custom tag text seen by a recording processor, value tag bound to a string, by-name wire tag) is started for real. Acyclic: substituted text / bound value / injected component equal the reference evaluator. Cyclic or self-growing: an error or an empty value; exceeding 5000 Configure.Get calls in one start is non-termination.",
    note="Trusted: the reference evaluator (innermost-first, re-evaluating configured text); harness binder around the real ViperBinder. Outside: unbalanced ${ fragments, number-like defaults (C17), more than three segments."),
+ "C17": dict(engine="E4 exhaustive input enumeration through E1 starts", design="§7 C17",
+   technique="bounded exhaustive enumeration: value x field-type x binding-path matrix (same-kind pairs) and every string of length <=4 over a 14-symbol risky alphabet through all four binding paths on the real container; oracle = strict YAML decoding / prefix twin / as written",
+   text="37 configured values (integers to MaxInt64, floats, booleans, 19 strings incl. number-like, boolean-like, quoted, bracketed, map-like, JSON-like, empty, padded; lists; maps) x 14 field types x {prefix, value placeholder, prop shorthand, literal} for every same-kind pair, one real start per cell; plus all 41 370 strings of length <=4 over {0,1,.,e,-,a,T,space,[,comma,',:,\",}} bound to string fields by prefix, value, prop and as a literal. Known findings (32, listed individually in known_findings.json): `any`-typed targets through value/prop receive the re-parsed text, and a configured empty string is treated as absent.",
+   note="Trusted: yaml.v3 strict decoding as the reference conversion; numbers compared by value for any / map[string]any targets. Outside: cross-kind pairs, strings longer than 4 (thorough 5), values containing ${ or #{ (placeholder/expression syntax)."),
  "C10": dict(engine=E1+" (+E2 scheduler for scan-phase schedules)", design="§7 C10",
    technique="differential bounded exhaustive exploration: each program under all permutations of iteration and registration order plus every single per-call order deviation on the real container; outcome signatures (tied points masked) must coincide",
    text="C08 families under all provider permutations (registration order follows), holders that are candidates for their own field with <=2 other candidates under all permutations of (providers, holder), all 2-node graphs with self loops and 3-node graphs under all 6x6 (iteration, registration) orders, and 2-provider programs under every single non-default answer of every registry enumeration: the signature (success, per-point target, sorted slice contents, ties masked) must be identical across all executions of one program.",
